@@ -246,6 +246,20 @@ theorem replacer_argument_types (t : List Nat) (mt : Caps) :
 example : typeReport [115, 116, 114, 105, 110, 103] [some (1, 2), none] true
     = "<string,undefined,number,string|true>".toList.map Char.toNat := by decide
 
+/-- **replace_global_ignores_stale.**  With a global regexp, whatever a function replacer does with the
+    RegExp object (read lastIndex, write it, exec the same regexp, throw), the outcome of
+    String.prototype.replace does not depend on the lastIndex the object had before the call: the search of
+    §15.5.4.10, including `lastIndex = 0`, is complete before the first call of the function. -/
+theorem replace_global_ignores_stale (E : Model.Eng) (rx : RX) (t : List Nat) (kind : Step) (v : LI) (hg : rx.global = true) :
+    Model.builtinStringReplaceS E { rx with lastIndex := v } t kind
+      = Model.builtinStringReplaceS E { rx with lastIndex := .int 0 } t kind := by
+  unfold Model.builtinStringReplaceS
+  simp [hg]
+
+/-- /a/g with a stale lastIndex 3 on "aa": every call of the replacer sees lastIndex 0 -/
+example : (Model.builtinStringReplaceS (charEngine (dG false false) (.ch (.lit 97))) ⟨true, .int 3⟩ [97, 97] .replaceL).2
+    = .str [60, 105, 48, 62, 60, 105, 48, 62] := by decide
+
 /-! ## 5. end to end: the real matcher satisfies the link -/
 
 /-- **matcher_context_free.**  A pattern without `^`, `\b`, `\B` matches in the suffix `s[k:]` exactly as
